@@ -1,7 +1,7 @@
 (* C09_Props.v — the property theorems of C09 and nothing else.
    Each is closed by `exact <lemma>` and followed by Print Assumptions. *)
 From Coq Require Import Lia.
-From V Require Import C09_Spec C09_Proofs C09_ProofsW C09_ProofsJ C09_ProofsS C09_ProofsC.
+From V Require Import C09_Spec C09_Proofs C09_ProofsW C09_ProofsJ C09_ProofsS C09_ProofsC C09_ProofsL.
 Open Scope N_scope.
 
 (* Chunking never matters: for EVERY byte string, read schedule, error-delivery mode and
@@ -221,6 +221,77 @@ Theorem json_pipe_partial : forall scan, scanner_skips_newline scan ->
 Proof. exact json_pipe_proof. Qed.
 Print Assumptions json_pipe_partial.
 
+(* ---------- the peers' MAIN LOOPS ----------
+   referenceclient.run creates its decoder ONCE and asks it for request after request until io.EOF;
+   referenceserver.run reads its one request with one decoder.  peer_loop / peer_first are those loops
+   over the decoders the theorems above speak about (protoDecoder = decode_all, the JSON decoder =
+   json_all with the buffer carried from one DecodeNext to the next); json = the --json flag. *)
+
+(* the loop's result does not depend on how stdin is split across reads, whatever the bytes and the ending *)
+Theorem peer_loop_any_chunking : forall json d sch eg sch' eg' t,
+  peer_loop jscan json (mk_src d sch eg t) = peer_loop jscan json (mk_src d sch' eg' t).
+Proof. exact peer_loop_any_chunking_proof. Qed.
+Print Assumptions peer_loop_any_chunking.
+
+(* ... relative to the oracle: any scanner that never revises a verdict *)
+Theorem peer_loop_any_chunking_partial : forall scan, scanner_stable scan ->
+  forall json d sch eg sch' eg' t,
+  peer_loop scan json (mk_src d sch eg t) = peer_loop scan json (mk_src d sch' eg' t).
+Proof. exact peer_loop_any_chunking_stable_proof. Qed.
+Print Assumptions peer_loop_any_chunking_partial.
+
+(* the sequence answered IS the sequence sent - every request once, in order, then the loop returns nil -
+   for EVERY chunking of stdin, in both variants *)
+Theorem peer_loop_answers_all : forall json msgs sch eg,
+  Forall (peer_msg_ok json) msgs ->
+  peer_loop jscan json (mk_src (peer_wire json msgs) sch eg TEOF) = (msgs, StopEOF).
+Proof. exact peer_loop_answers_all_proof. Qed.
+Print Assumptions peer_loop_answers_all.
+
+Theorem peer_loop_answers_all_partial : forall scan, scanner_skips_newline scan ->
+  forall (json : bool) msgs sch eg,
+  Forall (fun m => if json then scanner_ok scan m else ok32 m) msgs ->
+  peer_loop scan json (mk_src (peer_wire json msgs) sch eg TEOF) = (msgs, StopEOF).
+Proof. exact peer_loop_answers_all_oracle_proof. Qed.
+Print Assumptions peer_loop_answers_all_partial.
+
+(* stdin stops after j bytes of a request (EOF, an I/O error, or the runner stalls): the requests in front
+   of it are all answered; the loop then ends with unexpected EOF (j > 0) / nil (j = 0) / the error / waits *)
+Theorem peer_loop_cut : forall json msgs m j sch eg t,
+  Forall (peer_msg_ok json) msgs -> peer_msg_ok json m -> (j < length (peer_frame json m))%nat ->
+  peer_loop jscan json (mk_src (peer_wire json msgs ++ firstn j (peer_frame json m)) sch eg t) =
+  (msgs, peer_stop t j).
+Proof. exact peer_loop_cut_proof. Qed.
+Print Assumptions peer_loop_cut.
+
+(* the reference server: its request is decoded whatever the chunking and whatever follows it ... *)
+Theorem server_reads_request : forall json m rest sch eg t,
+  peer_msg_ok json m ->
+  peer_first jscan json (mk_src (peer_frame json m ++ rest) sch eg t) = FirstMsg m.
+Proof. exact server_reads_request_proof. Qed.
+Print Assumptions server_reads_request.
+
+(* ... and a truncated one is an error exit (with EOF: unexpected EOF, or EOF when nothing arrived) *)
+Theorem server_truncated_request : forall json m j sch eg t,
+  peer_msg_ok json m -> (j < length (peer_frame json m))%nat ->
+  peer_first jscan json (mk_src (firstn j (peer_frame json m)) sch eg t) = FirstStop (peer_stop t j).
+Proof. exact server_truncated_request_proof. Qed.
+Print Assumptions server_truncated_request.
+
+(* REFUTED VARIANT - a decoder built inside the loop, one per request (peer_loop_fresh).  Binary: no
+   difference, the decoder holds nothing between two calls. *)
+Theorem fresh_decoder_binary_same : forall scan s, peer_loop_fresh scan false s = peer_loop scan false s.
+Proof. exact fresh_decoder_binary_same_proof. Qed.
+Print Assumptions fresh_decoder_binary_same.
+
+(* JSON: whenever ONE read delivers the whole stream, only the first request is answered and the loop
+   returns nil all the same - for every stream of one or more requests (below 4 GiB) *)
+Theorem fresh_decoder_one_read_loses_all_but_first : forall v vs,
+  jscan_value v -> N.of_nat (length (json_write_all (v :: vs))) < 4294967296 ->
+  peer_loop_fresh jscan true (mk_src (json_write_all (v :: vs)) [] false TEOF) = ([v], StopEOF).
+Proof. exact fresh_decoder_one_read_proof. Qed.
+Print Assumptions fresh_decoder_one_read_loses_all_but_first.
+
 (* the constants regenerated from the compiled code satisfy the theorems' hypotheses *)
 Theorem real_constants :
   c09_prefix_len = 4 /\ c09_prefix_of_258 = be32 258 /\
@@ -281,3 +352,34 @@ Example ex_json_expected_garbage :
 Proof. vm_compute. auto. Qed.
 Example ex_jscan_value : jscan_value (bs "{""k{"":[""]"",{}]}") /\ ~ jscan_value (bs " {}") /\ ~ jscan_value (bs "{}{}").
 Proof. unfold jscan_value. split; [vm_compute; reflexivity|split; intro H; vm_compute in H; discriminate]. Qed.
+(* the main loops: three requests in ONE read, split at every byte, two-then-one; both variants *)
+Example ex_peer_loop_three_requests :
+  let js := [bs "{""testName"":""a""}"; bs "{ }"; bs "[{""k"":""}""}]"] in
+  let bn := [[10; 1; 97]; []; [10; 1; 98; 16; 1]] in
+  Forall (peer_msg_ok true) js /\ Forall (peer_msg_ok false) bn /\
+  peer_loop jscan true (mk_src (peer_wire true js) [] false TEOF) = (js, StopEOF) /\
+  peer_loop jscan true (mk_src (peer_wire true js) (repeat 1%nat 40) true TEOF) = (js, StopEOF) /\
+  peer_loop jscan false (mk_src (peer_wire false bn) [] false TEOF) = (bn, StopEOF) /\
+  peer_loop jscan false (mk_src (peer_wire false bn) (repeat 1%nat 40) true TEOF) = (bn, StopEOF) /\
+  peer_loop jscan false (mk_src (peer_wire false bn) [11; 99]%nat false TEOF) = (bn, StopEOF).
+Proof.
+  cbv zeta. split; [repeat constructor|]. split; [repeat constructor|]. vm_compute. repeat split; reflexivity.
+Qed.
+(* the decoder-per-request variant on the same JSON stream: one read -> 1 of 3 answered, clean exit;
+   two requests then one -> the second is lost; one request per read or one byte per read -> all three
+   (which is why tests that feed a pipe one write per read cannot see it) *)
+Example ex_fresh_decoder_loses_requests :
+  let js := [bs "{""testName"":""a""}"; bs "{ }"; bs "[{""k"":""}""}]"] in
+  peer_loop_fresh jscan true (mk_src (peer_wire true js) [] false TEOF) = ([bs "{""testName"":""a""}"], StopEOF) /\
+  peer_loop_fresh jscan true (mk_src (peer_wire true js) [21; 99]%nat false TEOF) =
+    ([bs "{""testName"":""a""}"; bs "[{""k"":""}""}]"], StopEOF) /\
+  peer_loop_fresh jscan true (mk_src (peer_wire true js) [17; 4; 99]%nat false TEOF) = (js, StopEOF) /\
+  peer_loop_fresh jscan true (mk_src (peer_wire true js) (repeat 1%nat 40) false TEOF) = (js, StopEOF).
+Proof. vm_compute. repeat split; reflexivity. Qed.
+Example ex_server_request :
+  peer_first jscan true (mk_src (bs "{""httpVersion"":2}" ++ [10]) [3; 1; 1]%nat false TEOF) = FirstMsg (bs "{""httpVersion"":2}") /\
+  peer_first jscan true (mk_src (bs "{""httpVers") [3; 1; 1]%nat false TEOF) = FirstStop StopUnexpected /\
+  peer_first jscan false (mk_src (write_msg [16; 2] ++ [1; 2; 3]) [1; 1; 2]%nat true TEOF) = FirstMsg [16; 2] /\
+  peer_first jscan false (mk_src [0; 0; 0; 2; 16] [1; 1; 2]%nat true TEOF) = FirstStop StopUnexpected /\
+  peer_first jscan false (mk_src [] [] true TEOF) = FirstStop StopEOF.
+Proof. vm_compute. repeat split; reflexivity. Qed.
